@@ -11,14 +11,17 @@ import sys
 
 ID, M = sys.argv[1], sys.argv[2]
 checks = sys.argv[3:] or [ID]
-src = "/tmp/mut/out/%s/%s" % (ID, M)
-dst = "/verif/seeded/%s-%s" % (ID, M)
+import os as _os
+BASE = _os.environ.get("MUT_BASE", "/tmp/mut/out")
+TAG = _os.environ.get("MUT_TAG", "")
+src = "%s/%s/%s" % (BASE, ID, M)
+dst = "/verif/seeded/%s-%s%s" % (ID, TAG, M)
 os.makedirs(dst, exist_ok=True)
 meta = json.load(open(src + "/meta.json"))
-conf_path = "/tmp/mut/confirm/%s_%s.json" % (ID, M)
+conf_path = "/tmp/mut/confirm/%s_%s%s.json" % (ID, TAG, M)
 conf = json.load(open(conf_path)) if os.path.exists(conf_path) else {}
 patch = src + "/patch.diff"
-reb = "/tmp/mut/confirm/%s_%s.patch.rebased.diff" % (ID, M)
+reb = "/tmp/mut/confirm/%s_%s%s.patch.rebased.diff" % (ID, TAG, M)
 use = reb if os.path.exists(reb) and os.path.getsize(reb) > 0 else patch
 assert subprocess.run(["git", "-C", "/repo", "status", "--porcelain", "--untracked-files=no"], capture_output=True, text=True).stdout.strip() == "", "repo dirty"
 r = subprocess.run(["git", "-C", "/repo", "apply", use], capture_output=True, text=True)
